@@ -193,7 +193,23 @@ func (u *Unit) retry(ctx context.Context, ob *Oblig, solvers []SolverSpec, ro Ru
 	cctx, cancel := context.WithCancel(ctx)
 	defer cancel()
 	long := ro.TimeoutMs
-	for _, s := range Solvers(long, ro.Seed) {
+	// portfolio: all solvers, and the z3 versions under several seeds (hard quantified goals are
+	// sensitive to the instantiation order; an obligation counts as discharged when any run proves it)
+	var port []SolverSpec
+	for k := 0; k < 3; k++ {
+		ss := Solvers(long, ro.Seed+k*7919)
+		if k == 0 {
+			port = append(port, ss...)
+		} else {
+			for _, s := range ss[:2] {
+				s.Name = fmt.Sprintf("%s (seed+%d)", s.Name, k)
+				port = append(port, s)
+			}
+		}
+	}
+	solvers = port
+	ch = make(chan res, len(port))
+	for _, s := range port {
 		s := s
 		go func() {
 			ans, raw, el, _ := RunScript(cctx, s, script, time.Duration(long+5000)*time.Millisecond)
@@ -237,7 +253,7 @@ func (u *Unit) retry(ctx context.Context, ob *Oblig, solvers []SolverSpec, ro Ru
 		// fetch a model
 		ms := u.ScriptFor(ob, true)
 		for _, s := range Solvers(long, ro.Seed) {
-			if s.Name != final.solver {
+			if !strings.HasPrefix(final.solver, s.Name) {
 				continue
 			}
 			_, raw, _, _ := RunScript(ctx, s, ms, time.Duration(long+5000)*time.Millisecond)
